@@ -142,7 +142,13 @@ def worker_main(prop, shard_path, out_path):
 
     ncases = shard["cases"]
     i = wid
-    while i < ncases and time.time() < deadline:
+    # the time budget is wall clock; on a loaded machine it must not shrink
+    # the workload to next to nothing: a third of this worker's share of the
+    # cases is run whatever the clock says (the watchdog of the whole run
+    # still bounds it)
+    floor = (ncases // nw) // 3 if tier == "quick" else 0
+    while i < ncases and (time.time() < deadline or
+                          out["random_done"] < floor):
         rng = random.Random(f"{prop}:{seed}:{i}")
         try:
             case = mod.gen_case(rng, tier, i)
